@@ -192,6 +192,59 @@ func c04(c *Ctx) {
 		c.check(q.bypass() == nil, "C04.4/filters", fnName(g)+":index-ahead-rejected", c.pos(g.Pos()), "an index whose Ts exceeds the committed frontier is not registered", "an index that is ahead of the committed log is accepted")
 	}
 	// ---- C04.5 read side: filters, then offset ------------------------------------------------------------------------
+	// ---- C04.6 sibling History implementations number revisions the same way ----------------------------------------
+	// "the history of a key lists every committed version in commit order with consecutive revision numbers": the
+	// revision handed to valueRefFrom for the i-th returned version is a function of the order and of the offset
+	// (offset+1+i ascending, hCount-offset-i descending) in every implementation of History
+	r6 := "C04.6/history-revisions-agree"
+	nh := 0
+	for _, name := range []string{storeT + "History", "embedded/store.(*Snapshot).History"} {
+		f := c.mustFn(r6, name)
+		if f == nil {
+			continue
+		}
+		var off, desc *ssa.Parameter
+		for _, p := range f.Params {
+			switch p.Name() {
+			case "offset":
+				off = p
+			case "descOrder":
+				desc = p
+			}
+		}
+		vr := sites(f, callTo(storeT+"valueRefFrom"))
+		if off == nil || desc == nil || len(vr) == 0 {
+			c.undecided(r6, name, "offset/descOrder parameters or the valueRefFrom call not found")
+			continue
+		}
+		for i, in := range vr {
+			nh++
+			hc := callOf(in).Args[2]
+			depOff := dependsOn(hc, func(v ssa.Value) bool { return v == ssa.Value(off) })
+			// the order decides between two formulas: the revision is a phi one of whose inputs is selected by descOrder
+			depDesc := false
+			dependsOn(hc, func(v ssa.Value) bool {
+				if ph, ok := v.(*ssa.Phi); ok {
+					for _, pb := range ph.Block().Preds {
+						for b := pb; b != nil; b = b.Idom() {
+							if len(b.Instrs) == 0 {
+								continue
+							}
+							if ifi, ok := b.Instrs[len(b.Instrs)-1].(*ssa.If); ok && ifi.Cond == ssa.Value(desc) {
+								depDesc = true
+							}
+						}
+					}
+				}
+				return false
+			})
+			c.check(depOff, r6, fmt.Sprintf("%s:revision-depends-on-offset#%d", fnName(f), i), c.pos(in.Pos()), "revision derives from the offset", "the revision given to the returned versions ("+desc2(hc)+") does not depend on the offset: with an offset every revision is shifted")
+			c.check(depDesc, r6, fmt.Sprintf("%s:revision-depends-on-order#%d", fnName(f), i), c.pos(in.Pos()), "revision formula is selected by descOrder", "the revision given to the returned versions ("+desc2(hc)+") is the same in ascending and descending order")
+		}
+	}
+	if nh < 2 {
+		c.undecided(r6, "floor", "History implementations not found")
+	}
 	r := "C04.5/read-pipeline"
 	for _, n := range []string{storeT + "Get", storeT + "GetWithPrefix", "embedded/store.(*Snapshot).Get", "embedded/store.(*Snapshot).GetWithPrefix", otxT + "Get", otxT + "GetWithPrefix"} {
 		g := c.mustFn(r, n)
@@ -290,3 +343,5 @@ func collectFuncs(v ssa.Value, out map[string]bool) {
 		collectFuncs(x.X, out)
 	}
 }
+
+func desc2(v ssa.Value) string { return desc(v) }
